@@ -436,7 +436,10 @@ def write_summary_file_vue(stats, filepath, year=2025, currency_format="${amount
     }
 
     # Assemble final HTML
-    data_script = f'window.spendingData = {json.dumps(spending_data)};'
+    # "<" is written as \u003c (the same character to JSON and JavaScript parsers) so that no
+    # string in the data can end the <script> element or open an HTML comment inside it
+    data_json = json.dumps(spending_data).replace('<', '\\u003c')
+    data_script = f'window.spendingData = {data_json};'
 
     if not embedded_html:
         # Write separate files for easier development
